@@ -645,3 +645,250 @@ r5_slice_encode!(r5_slice_binary_sh4, 4, 1, 3, |a, b| {
     v.push(9u8);
     ItemContent::Binary(v)
 }, ContentModel::Binary(&[9u8]));
+
+// ---------------------------------------------------------------------------------------------
+// R3 (delete-set stream): `DecoderV2::read_ds_clock` / `read_ds_len` against the format
+// (cumulative clocks, lengths stored minus one) on every 6-byte rest buffer.
+// ---------------------------------------------------------------------------------------------
+#[kani::proof]
+#[kani::unwind(12)]
+fn r3_ds_stream() {
+    let content: [u8; 6] = kani::any();
+    let (buf, n) = v2_columns::<6>(9, &content, 6, 99, &[]);
+    let mut m = Cursor::new(&content[..]);
+    let mut cur: u64 = 0;
+    match DecoderV2::new(Cursor::new(&buf[..n])) {
+        Ok(mut d) => {
+            let mut i = 0;
+            let mut alive = true;
+            while i < 2 {
+                if alive {
+                    // clock
+                    let real = d.read_ds_clock().ok();
+                    let want: Option<u32> = match m.read_var::<u32>() {
+                        Ok(v) => {
+                            cur += v as u64;
+                            if cur <= u32::MAX as u64 { Some(cur as u32) } else { None }
+                        }
+                        Err(_) => None,
+                    };
+                    assert!(real == want, "v2 delete-set clock decodes differently from the format");
+                    alive = real.is_some();
+                    if alive {
+                        let real = d.read_ds_len().ok();
+                        let want: Option<u32> = match m.read_var::<u32>() {
+                            Ok(v) => {
+                                let len = v as u64 + 1;
+                                cur += len;
+                                if len <= u32::MAX as u64 && cur <= u32::MAX as u64 { Some(len as u32) } else { None }
+                            }
+                            Err(_) => None,
+                        };
+                        assert!(real == want, "v2 delete-set length decodes differently from the format");
+                        alive = real.is_some();
+                        kani::cover!(i == 1 && alive, "two ranges read");
+                    }
+                }
+                i += 1;
+            }
+            std::mem::forget(d);
+        }
+        Err(_) => panic!("well-framed buffer"),
+    }
+    kani::cover!(true, "reach");
+}
+
+// ---------------------------------------------------------------------------------------------
+// R6 / R7 / R8 (encoder halves through the recording Encoder): delete-set ranges, sticky indexes
+// and sync-protocol messages make exactly the encoder calls their formats prescribe.
+// ---------------------------------------------------------------------------------------------
+use yrs::sync::protocol::{Message, SyncMessage};
+use yrs::{Assoc, IndexScope, StickyIndex};
+
+#[kani::proof]
+#[kani::unwind(14)]
+fn r6_id_range_encode() {
+    let a: (u32, u32) = kani::any();
+    let b: (u32, u32) = kani::any();
+    kani::assume(a.0 < a.1 && a.1 < b.0 && b.0 < b.1);
+    let mut v: Vec<(std::ops::Range<u32>, ())> = Vec::with_capacity(4);
+    v.push((a.0..a.1, ()));
+    v.push((b.0..b.1, ()));
+    let r = hook::id_ranges_from_raw(smallvec::SmallVec::from_vec(v));
+    let mut real = Recorder::new();
+    r.encode(&mut real);
+    let mut model = Recorder::new();
+    model.write_var(2u32);
+    model.write_ds_clock(a.0);
+    model.write_ds_len(a.1 - a.0);
+    model.write_ds_clock(b.0);
+    model.write_ds_len(b.1 - b.0);
+    assert_same_events(&real, &model);
+    kani::cover!(true, "reach");
+    std::mem::forget(r);
+}
+
+use crate::c13_model::RecorderN;
+
+macro_rules! r7_sticky {
+    ($name:ident, $which:expr) => {
+        #[kani::proof]
+        #[kani::unwind(30)]
+        fn $name() {
+            let id = any_id();
+            let after: bool = kani::any();
+            let assoc = if after { Assoc::After } else { Assoc::Before };
+            let scope = match $which {
+                0 => IndexScope::Relative(id),
+                1 => IndexScope::Nested(id),
+                _ => IndexScope::Root(Arc::from("r\u{e9}")),
+            };
+            let x = StickyIndex::new(scope, assoc);
+            let mut real: RecorderN<24> = RecorderN::new();
+            x.encode(&mut real);
+            let mut model: RecorderN<24> = RecorderN::new();
+            match $which {
+                0 => {
+                    model.write_var(0u8);
+                    model.write_var(id.client.get());
+                    model.write_var(id.clock);
+                }
+                1 => {
+                    model.write_var(2u8);
+                    model.write_var(id.client.get());
+                    model.write_var(id.clock);
+                }
+                _ => {
+                    model.write_var(1u8);
+                    model.write_string("r\u{e9}");
+                }
+            }
+            // Assoc: After = 0, Before = -1 as a signed var-int
+            model.write_var(if after { 0i8 } else { -1i8 });
+            assert_same_events(&real, &model);
+            kani::cover!(!after, "assoc before");
+            kani::cover!(true, "reach");
+            std::mem::forget(x);
+        }
+    };
+}
+r7_sticky!(r7_sticky_encode_relative, 0);
+r7_sticky!(r7_sticky_encode_nested, 1);
+r7_sticky!(r7_sticky_encode_root, 2);
+
+macro_rules! r8_message {
+    ($name:ident, |$tag:ident, $p:ident| $msg:expr, |$model:ident| $calls:expr) => {
+        #[kani::proof]
+        #[kani::unwind(14)]
+        fn $name() {
+            let $tag: u8 = kani::any();
+            let $p: [u8; 2] = kani::any();
+            kani::assume($tag > 3);
+            let msg: Message = $msg;
+            let mut real = Recorder::new();
+            msg.encode(&mut real);
+            let mut $model = Recorder::new();
+            $calls;
+            assert_same_events(&real, &$model);
+            kani::cover!($tag >= 128, "tag needing two bytes");
+            kani::cover!(true, "reach");
+            std::mem::forget(msg);
+        }
+    };
+}
+fn vec2(p: &[u8; 2]) -> Vec<u8> {
+    let mut v = Vec::with_capacity(4);
+    v.push(p[0]);
+    v.push(p[1]);
+    v
+}
+r8_message!(r8_msg_auth_granted, |tag, p| Message::Auth(None), |m| {
+    m.write_var(2u8);
+    m.write_var(1u8);
+});
+r8_message!(r8_msg_auth_denied, |tag, p| Message::Auth(Some(String::from("no"))), |m| {
+    m.write_var(2u8);
+    m.write_var(0u8);
+    m.write_string("no");
+});
+r8_message!(r8_msg_query, |tag, p| Message::AwarenessQuery, |m| m.write_var(3u8));
+r8_message!(r8_msg_custom, |tag, p| Message::Custom(tag, vec2(&p)), |m| {
+    m.write_var(tag);
+    m.write_buf(&p[..]);
+});
+r8_message!(r8_msg_sync_step2, |tag, p| Message::Sync(SyncMessage::SyncStep2(vec2(&p))), |m| {
+    m.write_var(0u8);
+    m.write_var(1u8);
+    m.write_buf(&p[..]);
+});
+r8_message!(r8_msg_sync_update, |tag, p| Message::Sync(SyncMessage::Update(vec2(&p))), |m| {
+    m.write_var(0u8);
+    m.write_var(2u8);
+    m.write_buf(&p[..]);
+});
+
+/// `Any::Number` encoding selection (integer / f32 / f64) against the lib0 rule, every f64 bit
+/// pattern: integers inside the 53-bit safe range as var-ints, values exactly representable as
+/// f32 as 4 bytes, everything else as 8 bytes.
+#[kani::proof]
+#[kani::unwind(18)]
+fn r9_any_number_encode() {
+    let bits: u64 = kani::any();
+    let v = f64::from_bits(bits);
+    let mut real: RecorderN<16> = RecorderN::new();
+    Any::Number(v).encode(&mut real);
+    let mut model: RecorderN<16> = RecorderN::new();
+    const MAX_SAFE: f64 = 9007199254740991.0; // 2^53 - 1
+    let t = v.trunc();
+    if t == v && t <= MAX_SAFE && t >= -MAX_SAFE {
+        model.write_u8(125);
+        model.write_var(t as i64);
+    } else if ((v as f32) as f64) == v {
+        model.write_u8(124);
+        model.write_all(&(v as f32).to_be_bytes());
+    } else {
+        model.write_u8(123);
+        model.write_all(&v.to_be_bytes());
+    }
+    assert_same_events(&real, &model);
+    kani::cover!(v == 0.5, "f32 path");
+    kani::cover!(v == 0.1, "f64 path");
+    kani::cover!(v == 9007199254740991.0, "largest safe integer");
+    kani::cover!(true, "reach");
+}
+
+/// `Any::decode` of the three number encodings against the primitive readers (tag concrete).
+macro_rules! r9_number_decode {
+    ($name:ident, $tag:expr, $n:expr, |$c:ident| $want:expr) => {
+        #[kani::proof]
+        #[kani::unwind(13)]
+        #[kani::stub(std::hash::RandomState::new, random_state_new)]
+        fn $name() {
+            let payload: [u8; $n] = kani::any();
+            let mut full = [0u8; 12];
+            full[0] = $tag;
+            let mut i = 0;
+            while i < $n {
+                full[i + 1] = payload[i];
+                i += 1;
+            }
+            let mut c = Cursor::new(&full[..$n + 1]);
+            let real = Any::decode(&mut c);
+            let mut $c = Cursor::new(&payload[..]);
+            let want: Option<f64> = $want;
+            match (&real, want) {
+                (Ok(Any::Number(x)), Some(w)) => {
+                    assert!(x.to_bits() == w.to_bits() || (x.is_nan() && w.is_nan()));
+                    assert!(c.next == $c.next + 1);
+                }
+                (Err(_), None) => {}
+                _ => panic!("Any number decodes differently from the primitive readers"),
+            }
+            kani::cover!(real.is_ok(), "decoded");
+            kani::cover!(true, "reach");
+            std::mem::forget(real);
+        }
+    };
+}
+r9_number_decode!(r9_any_f32_decode, 124, 4, |m| m.read_f32().ok().map(|v| v as f64));
+r9_number_decode!(r9_any_f64_decode, 123, 8, |m| m.read_f64().ok());
